@@ -1,8 +1,12 @@
 package props
 
 import (
+	"bytes"
+	"strings"
+
 	"errors"
 	"fmt"
+	"verif.local/sim/refmodel"
 
 	"verif.local/sim/simio"
 	"verif.local/sim/tape"
@@ -82,8 +86,42 @@ func (c19) Run(t *tape.Tape, st *Stats) *Violation {
 			break
 		}
 	}
+	// two-step history: in a quarter of the runs autometa loads another file
+	// first, in the same run - the same bytes again, an unrelated file, or (when
+	// the generator vouches for an uncompressed single-block profile of more than
+	// 160 bytes) the same file with one byte changed inside the profile beyond its
+	// 128-byte header. What autometa returns for this file must not depend on that.
+	earlier := ""
+	hk, hseed := t.Intn(12), t.Draw(1<<40)
+	if hk < 3 {
+		other := data
+		earlier = "the same bytes"
+		hr := tape.NewRand(hseed)
+		if hk == 1 {
+			other = GenValid(tape.New(hseed, nil), false, []int{300, 3000}).Bytes()
+			earlier = "an unrelated valid file"
+		} else if hk == 2 && in.Truth != nil && in.Truth.ICCState == refmodel.ICCPresent && (in.Truth.Format == "WebP" || (in.Truth.Format == "JPEG" && in.Truth.ICCChunks == 1)) {
+			for _, f := range in.Fields {
+				if f.Kind == "data" && strings.Contains(f.Name, "ICC") && f.Width > 160 && f.Off+f.Width <= len(data) {
+					other = append([]byte{}, data...)
+					off := f.Off + 128 + hr.Intn(f.Width-128)
+					other[off] ^= byte(1 + hr.Intn(255))
+					earlier = fmt.Sprintf("the same file with byte %d (inside the profile, beyond its header) changed", off)
+					break
+				}
+			}
+		}
+		func() {
+			defer func() { recover() }()
+			if md, _, err := LoaderAuto.Fn(bytes.NewReader(other)); err == nil && md != nil {
+				md.ICCProfileData()
+			}
+		}()
+	}
+	mid := DrawMidFile(t)
 	src := simio.NewSource(simio.Bytes(data), cfg)
-	res := SafeLoad(LoaderAuto, src)
+	rd, ss := mid.Wrap(src)
+	res := SafeLoad(LoaderAuto, rd)
 	during := src.Delivered
 	var got simio.Consumed
 	if res.Panic == nil && res.Stream != nil {
@@ -92,6 +130,9 @@ func (c19) Run(t *tape.Tape, st *Stats) *Violation {
 	v := View(res)
 	st.Class(in.Class)
 	deliveryStats(st, src)
+	mid.Stats(st, ss)
+	st.Probe("earlier_autometa_load_in_the_same_run", earlier != "")
+	st.Probe("earlier_load_of_a_sibling_file(same profile header, other tag data)", strings.HasPrefix(earlier, "the same file with"))
 	st.Probe("model_winner:"+winner, true)
 	st.Probe("loader_chain_depth>=2", tried >= 2)
 	st.Probe("first_candidate_filled_a_buffer_before_failing", winner != "pngmeta" && during >= 4096)
@@ -101,14 +142,14 @@ func (c19) Run(t *tape.Tape, st *Stats) *Violation {
 	}
 	render := func() interface{} {
 		return map[string]interface{}{"input": in.Desc + cutNote, "input_class": in.Class, "input_len": len(data), "stored_faults": in.Faults,
-			"delivery": cfg.String(), "delivery_log": src.LogString(), "consumer": cons.String(), "model_winner": winner, "model": model, "autometa": v,
+			"delivery": cfg.String() + mid.String(), "delivery_log": src.LogString(), "consumer": cons.String(), "model_winner": winner, "model": model, "autometa": v,
 			"replayed": got.N, "replay_err": fmt.Sprint(got.Err), "input_hex": hex(data, 500)}
 	}
 	if st.WantSample() {
 		st.Sample(render())
 	}
 	fail := func(class, detail string) *Violation {
-		return &Violation{Class: class, Sig: "auto:" + class + ":" + winner, Detail: detail + " [" + trunc(in.Desc, 200) + cutNote + " under " + cfg.String() + "]", Render: render()}
+		return &Violation{Class: class, Sig: "auto:" + class + ":" + winner, Detail: detail + " [" + trunc(in.Desc, 200) + cutNote + " under " + cfg.String() + "]" + earlierNote(earlier), Render: render(), OwnHistory: earlier != ""}
 	}
 	if res.Panic != nil {
 		return fail("panic", fmt.Sprintf("autometa.Load panicked: %v", res.Panic))
@@ -146,4 +187,11 @@ func (c19) Run(t *tape.Tape, st *Stats) *Violation {
 		return fail("auto-differs", fmt.Sprintf("%s gives %+v, autometa gives %+v (%s)", winner, model, v, class))
 	}
 	return nil
+}
+
+func earlierNote(e string) string {
+	if e == "" {
+		return ""
+	}
+	return " [after an earlier autometa.Load of " + e + "]"
 }
